@@ -2333,6 +2333,10 @@ def chain_child(scope):
     # of tuples
     nxt_in_chain = scope[LAST_CHILD_SCOPE]
     nxt_in_chain.maps[0][NO_PYFRAME] = True
+    # the chain continues in the mode of the chaining scope, not in a
+    # mode set by the previous step (e.g., a Fill or Match wrapper)
+    nxt_in_chain.maps[0][MODE] = scope[MODE]
+    nxt_in_chain.maps[0][MIN_MODE] = scope[MIN_MODE]
     # previous failed branches are forgiven as the
     # scope is re-wired into a new stack
     del nxt_in_chain.maps[0][CHILD_ERRORS][:]
